@@ -48,6 +48,11 @@ def grad_replay(prop, spec, model, leaf, index, F, G, out_shape_expr="out.shape"
             s += "%s = mg.Tensor(%s.T)\n" % (name, _lit(_arr(name, tuple(shape)[::-1], model)))
         else:
             s += "%s = mg.Tensor(%s)\n" % (name, _lit(_arr(name, shape, model)))
+    if spec.get("pre_grads"):
+        s += "_pre = None\n"
+        for ent in spec.get("leaves", []):
+            s += "_pre = (%s * %s).sum() if _pre is None else _pre + (%s * %s).sum()\n" % ((ent[0],) * 4)
+        s += "_pre.backward()  # every leaf already holds a gradient from an earlier pass\n"
     s += spec["body"].rstrip() + "\n"
     if spec.get("seed", "sym") == "sym":
         s += "G_MODEL = %s\n" % json.dumps({k: float(v) for k, v in model.items() if k.startswith("g")})
